@@ -795,12 +795,7 @@ Section SettingsProofs.
     let '(n, v, r) := c in (n, {| ce_version := v; ce_rename := r |}).
   Definition mkcli (c : cli_spec V) : ustring * crate_entry V :=
     (cs_name c, {| ce_version := cs_version c; ce_rename := cs_rename c |}).
-  Definition mkm (e : ustring * (option ustring * crate_vers V)) : ustring * crate_entry V :=
-    let '(crate_name, (original, version)) := e in
-    match original with
-    | Some oc => (oc, {| ce_version := version; ce_rename := Some crate_name |})
-    | None => (crate_name, {| ce_version := version; ce_rename := None |})
-    end.
+  Notation mkm := (macro_crate_binding V).
   Definition rep_b (x : ustring * list timpl) : treplace := let '(ty, impls) := x in {| tr_type := ty; tr_impls := impls |}.
   Definition conv_b (x : S * (ustring * list timpl)) : tconv S :=
     let '(sc, (ty, impls)) := x in {| tc_schema := sc; tc_type := ty; tc_impls := impls |}.
@@ -969,6 +964,40 @@ Section SettingsProofs.
     rewrite fold_with_derive. cbn [with_struct_builder].
     rewrite fold_with_patch, fold_with_replacement_m, fold_with_conversion_m, fold_with_crate_m.
     reflexivity.
+  Qed.
+
+  (* the settings' crate table IS the macro's table, entry for entry (in insertion order, newest
+     first), whatever the versions are: nothing is filtered, nothing is added *)
+  Theorem macro_crates_complete : forall mi : macro_input V S,
+      s_crates _ _ (macro_settings_of V S vec_order mi) = rev (map mkm (mi_crates _ _ mi)) /\
+      length (s_crates _ _ (macro_settings_of V S vec_order mi)) = length (mi_crates _ _ mi) /\
+      (forall e, In e (mi_crates _ _ mi) -> In (mkm e) (s_crates _ _ (macro_settings_of V S vec_order mi))) /\
+      (forall b, In b (s_crates _ _ (macro_settings_of V S vec_order mi)) ->
+                 exists e, In e (mi_crates _ _ mi) /\ b = mkm e) /\
+      (NoDup (map (fun e => fst (mkm e)) (mi_crates _ _ mi)) ->
+       forall e, In e (mi_crates _ _ mi) ->
+                 lookup (fst (mkm e)) (s_crates _ _ (macro_settings_of V S vec_order mi)) = Some (snd (mkm e))).
+  Proof.
+    intros mi. rewrite macro_nf. cbn [s_crates]. rewrite app_nil_r.
+    split; [reflexivity|]. split; [rewrite rev_length, map_length; reflexivity|].
+    split; [|split].
+    - intros e He. rewrite <- in_rev. apply in_map. exact He.
+    - intros b Hb. rewrite <- in_rev in Hb. apply in_map_iff in Hb. destruct Hb as [e [He Hi]].
+      exists e. split; [exact Hi | symmetry; exact He].
+    - intros Hnd e He. apply In_lookup.
+      + rewrite map_rev. apply NoDup_rev. rewrite map_map. exact Hnd.
+      + rewrite <- in_rev. destruct (mkm e) as [k v] eqn:E. cbn [fst snd]. rewrite <- E. apply in_map. exact He.
+  Qed.
+
+  (* in particular a `!` entry is recorded: "name" = "!" gives name |-> Never *)
+  Corollary macro_never_recorded : forall (mi : macro_input V S) name,
+      NoDup (map (fun e => fst (mkm e)) (mi_crates _ _ mi)) ->
+      In (name, (None, Never)) (mi_crates _ _ mi) ->
+      lookup name (s_crates _ _ (macro_settings_of V S vec_order mi))
+      = Some {| ce_version := Never; ce_rename := None |}.
+  Proof.
+    intros mi name Hnd Hi. destruct (macro_crates_complete mi) as (_ & _ & _ & _ & H).
+    exact (H Hnd (name, (None, Never)) Hi).
   Qed.
 
   Lemma cli_nf : forall a : cli_args V,
